@@ -427,3 +427,68 @@ Proof.
   rewrite norm_goods by (apply Forall_app; split; apply Forall_good_of; assumption).
   reflexivity.
 Qed.
+
+(* ---- paths as component lists ----------------------------------------------- *)
+(* the non-empty components of a path: the inverse of [abs_path] *)
+Definition path_comps (p : str) : list str := filter ne (comps p).
+
+Lemma path_comps_abs_path (cs : list str) : Forall comp_ok cs -> path_comps (abs_path cs) = cs.
+Proof.
+  intros Hok. unfold path_comps, abs_path. rewrite comps_sep. cbn [filter ne negb].
+  rewrite filter_comps_intercalate. unfold fc.
+  induction Hok as [|a l Ha _ IH]; [reflexivity|]. cbn [flat_map]. rewrite IH.
+  rewrite comps_word by (apply comp_ok_sepfree, Ha).
+  destruct Ha as (Ha & _). destruct a; [congruence|reflexivity].
+Qed.
+
+Theorem abs_path_inj (cs cs' : list str) :
+  Forall comp_ok cs -> Forall comp_ok cs' -> abs_path cs = abs_path cs' -> cs = cs'.
+Proof.
+  intros H1 H2 E. rewrite <- (path_comps_abs_path H1), <- (path_comps_abs_path H2), E. reflexivity.
+Qed.
+
+Lemma Forall_comp_ok_of (l : list str) : Forall good_comp l -> Forall comp_ok l.
+Proof. intros H. eapply Forall_impl; [|exact H]. apply good_comp_ok. Qed.
+
+(* Clean of an absolute path, on components *)
+Theorem clean_abs_comps (p : str) :
+  is_abs Linux p = true ->
+  clean Linux p = abs_path (norm true [] (path_comps p)) /\ Forall good_comp (norm true [] (path_comps p)).
+Proof.
+  intros Ha. apply is_abs_linux in Ha as (r & ->). rewrite clean_spec_correct.
+  destruct (clean_spec_rooted r) as (cs & H1 & H2 & H3).
+  unfold path_comps. rewrite norm_filter, comps_sep, norm_empty, <- H3. split; [exact H1|exact H2].
+Qed.
+
+(* a clean absolute path is a fixed point of Clean *)
+Theorem clean_abs_path_fix (cs : list str) : Forall good_comp cs -> clean Linux (abs_path cs) = abs_path cs.
+Proof.
+  intros Hg. destruct (@clean_abs_comps (abs_path cs) eq_refl) as (H & _). rewrite H.
+  rewrite path_comps_abs_path by (apply Forall_comp_ok_of; exact Hg).
+  change (@nil str) with (stk 0 []). rewrite norm_goods by (apply Forall_good_of; exact Hg). reflexivity.
+Qed.
+
+(* Join of a clean absolute base with any path: Pike's machine runs over the
+   components of [p] starting from the stack of the base's names *)
+Theorem join_abs_any (bs : list str) (p : str) :
+  Forall good_comp bs ->
+  join Linux [abs_path bs; p] = abs_path (norm true (rev bs) (path_comps p)).
+Proof.
+  intros Hg. erewrite join_comps; [|reflexivity]. change (is_abs_spec (abs_path bs)) with true.
+  unfold fc. cbn [flat_map]. fold (path_comps (abs_path bs)). fold (path_comps p).
+  rewrite path_comps_abs_path, app_nil_r by (apply Forall_comp_ok_of; exact Hg).
+  change (@nil str) with (stk 0 []) at 1.
+  rewrite norm_goods_app by (apply Forall_good_of; exact Hg). unfold stk. rewrite !app_nil_r. reflexivity.
+Qed.
+
+(* ... and with a clean absolute path: concatenation of the component lists *)
+Theorem join_abs_abs (bs ps : list str) :
+  Forall good_comp bs -> Forall good_comp ps ->
+  join Linux [abs_path bs; abs_path ps] = abs_path (bs ++ ps).
+Proof.
+  intros Hb Hp. rewrite join_abs_any by exact Hb.
+  rewrite path_comps_abs_path by (apply Forall_comp_ok_of; exact Hp).
+  assert (E : rev bs = stk 0 (rev bs)) by (unfold stk; cbn [repeat]; symmetry; apply app_nil_r).
+  rewrite E. rewrite norm_goods by (apply Forall_good_of; exact Hp).
+  unfold L. cbn [repeat app]. rewrite rev_involutive. reflexivity.
+Qed.
